@@ -25,6 +25,8 @@ Fixpoint wf (p : prog) (held : list N) : Prop :=
   | LoadAndDelete _ k => forall o, wf (k o) held
   | Delete _ k => wf k held
   | CompareAndDelete _ _ k => forall b, wf (k b) held
+  | Snapshot k => forall l, wf (k l) held
+  | Pick _ _ k => forall o, wf (k o) held
   | Lock q k => held = [] /\ wf k [q]
   | Unlock q k => In q held /\ wf k (remove_one q held)
   | ReadSF q k => In q held /\ forall s, wf (k s) held
@@ -41,6 +43,8 @@ Fixpoint balanced (p : prog) (held : list N) : Prop :=
   | LoadAndDelete _ k => forall o, balanced (k o) held
   | Delete _ k => balanced k held
   | CompareAndDelete _ _ k => forall b, balanced (k b) held
+  | Snapshot k => forall l, balanced (k l) held
+  | Pick _ _ k => forall o, balanced (k o) held
   | Lock q k => ~ In q held /\ balanced k (q :: held)
   | Unlock q k => In q held /\ balanced k (remove_one q held)
   | ReadSF _ k => forall s, balanced (k s) held
@@ -50,7 +54,7 @@ Fixpoint balanced (p : prog) (held : list N) : Prop :=
 
 Lemma wf_balanced : forall p held, wf p held -> balanced p held.
 Proof.
-  induction p as [r|f k IH|f k IH|f k IH|f k IH|f q k IH|q k IH|q k IH|q k IH|q g k IH|c k IH];
+  induction p as [r|f k IH|f k IH|f k IH|f k IH|f q k IH|k IH|vs ms k IH|q k IH|q k IH|q k IH|q g k IH|c k IH];
     intros held H; cbn [wf balanced] in *.
   - exact H.
   - intro o. apply IH, H.
@@ -58,6 +62,8 @@ Proof.
   - intro o. apply IH, H.
   - apply IH, H.
   - intro b. apply IH, H.
+  - intro l. apply IH, H.
+  - intro o. apply IH, H.
   - destruct H as [-> H1]. split; [intros [] | apply IH, H1].
   - destruct H as [H0 H1]. split; [exact H0 | apply IH, H1].
   - destruct H as [_ H1]. intro s. apply IH, H1.
@@ -109,6 +115,23 @@ Proof. intro f. unfold attach_rest. apply wf_new_ref; intros; wf_auto. Qed.
 Lemma wf_attach_rest_some : forall f a, wf (attach_rest f (Some a)) [a].
 Proof. intros f a. unfold attach_rest. apply wf_new_ref; intros; wf_auto. Qed.
 
+Lemma wf_stop_visit : forall f q k, wf k [] -> wf (stop_visit f q k) [].
+Proof. intros f q k H. unfold stop_visit. wf_auto; auto. Qed.
+
+Lemma wf_stop_pass : forall n visited must again next,
+  (forall n' a, wf (next n' a) []) -> wf (stop_pass n visited must again next) [].
+Proof.
+  induction n as [|n IH]; intros visited must again next H; cbn [stop_pass wf]; intros [[f q]|]; try apply H.
+  - cbn. reflexivity.
+  - apply wf_stop_visit, IH, H.
+Qed.
+
+Lemma wf_stop_loop : forall passes n, wf (stop_loop passes n) [].
+Proof.
+  induction passes as [|passes IH]; intro n; cbn [stop_loop]; [cbn; reflexivity|].
+  cbn [wf]. intro l. apply wf_stop_pass. intros n' a. destruct a; [apply IH | cbn; reflexivity].
+Qed.
+
 Lemma wf_prog_of : forall reqauth o, wf (prog_of reqauth o) [].
 Proof.
   intros reqauth o. destruct o; cbn [prog_of].
@@ -128,6 +151,7 @@ Proof.
   - (* WStat *) unfold prog_statlike. apply wf_get_ref; [wf_auto|]. intros p s. wf_auto.
   - (* Clunk *) unfold prog_clunk. apply wf_del_ref. intro. wf_auto.
   - (* Remove *) unfold prog_remove. apply wf_del_ref. intro. wf_auto.
+  - (* Stop *) apply wf_stop_loop.
 Qed.
 
 (* ------------------------------------------------------------------ 2. the invariant *)
@@ -253,7 +277,7 @@ Proof.
   intros s i s' I H. unfold step in H.
   destruct (threads s !! i) as [th|] eqn:Hi; [|discriminate].
   destruct (proj1 I _ _ Hi) as (W & ND & Hiff).
-  destruct (t_prog th) as [r|f k|f k|f k|f k|f q k|q k|q k|q k|q g k|c k] eqn:Hp; cbn [wf] in W.
+  destruct (t_prog th) as [r|f k|f k|f k|f k|f q k|k|vs ms k|q k|q k|q k|q g k|c k] eqn:Hp; cbn [wf] in W.
   - discriminate.
   - (* Load *) injection H as <-. unfold inv. cbn. eapply inv_same; eauto. cbn. apply W.
   - (* Reserve *) destruct (refs s !! f).
@@ -266,6 +290,8 @@ Proof.
   - (* LoadAndDelete *) injection H as <-. unfold inv. cbn. eapply inv_same; eauto. cbn. apply W.
   - (* Delete *) injection H as <-. unfold inv. cbn. eapply inv_same; eauto.
   - (* CompareAndDelete *) injection H as <-. unfold inv. cbn. eapply inv_same; eauto. cbn. apply W.
+  - (* Snapshot *) injection H as <-. unfold inv. cbn. eapply inv_same; eauto; cbn; try apply W.
+  - (* Pick *) injection H as <-. unfold inv. cbn. eapply inv_same; eauto; cbn; try apply W.
   - (* Lock *) destruct (owner s !! q) eqn:E; [discriminate|]. injection H as <-. unfold inv. cbn.
     destruct W as [Hnil W]. eapply inv_acquire with (np := nextp s); eauto; cbn; try lia.
     rewrite Hnil. exact W.
@@ -300,7 +326,7 @@ Lemma in_call_holds : forall s i th p,
   inv s -> threads s !! i = Some th -> in_call_on th = Some (Some p) -> owner s !! p = Some i.
 Proof.
   intros s i th p I Hi Hc. destruct (proj1 I _ _ Hi) as (W & _ & Hiff).
-  unfold in_call_on in Hc. destruct (t_prog th) as [| | | | | | | | | |c k]; try discriminate.
+  unfold in_call_on in Hc. destruct (t_prog th) as [| | | | | | | | | | | |c k]; try discriminate.
   destruct (t_incall th); [|discriminate]. injection Hc as Hc. cbn [wf] in W.
   apply Hiff. apply (proj1 W). exact Hc.
 Qed.
@@ -444,6 +470,8 @@ Fixpoint depth_le (p : prog) (n : nat) : Prop :=
   | LoadAndDelete _ k => match n with O => False | S m => forall o, depth_le (k o) m end
   | Delete _ k => match n with O => False | S m => depth_le k m end
   | CompareAndDelete _ _ k => match n with O => False | S m => forall b, depth_le (k b) m end
+  | Snapshot k => match n with O => False | S m => forall l, depth_le (k l) m end
+  | Pick _ _ k => match n with O => False | S m => forall o, depth_le (k o) m end
   | Lock _ k => match n with O => False | S m => depth_le k m end
   | Unlock _ k => match n with O => False | S m => depth_le k m end
   | ReadSF _ k => match n with O => False | S m => forall s, depth_le (k s) m end
@@ -451,8 +479,15 @@ Fixpoint depth_le (p : prog) (n : nat) : Prop :=
   | Fs _ k => match n with O => False | S m => forall r, depth_le (k r) m end
   end.
 
-Definition DEPTH : nat := 16.
+Lemma depth_le_mono : forall p n m, depth_le p n -> (n <= m)%nat -> depth_le p m.
+Proof.
+  induction p as [r|f k IH|f k IH|f k IH|f k IH|f q k IH|k IH|vs ms k IH|q k IH|q k IH|q k IH|q g k IH|c k IH];
+    intros n m H Hle; cbn [depth_le] in *; try exact I;
+    (destruct n as [|n]; [destruct H|]); (destruct m as [|m]; [lia|]);
+    try (intros; eapply IH; [apply H | lia]).
+Qed.
 
+(* the client's operations: at most 16 actions on any path *)
 Ltac d_step :=
   match goal with
   | |- True => exact I
@@ -463,13 +498,45 @@ Ltac d_step :=
   | |- depth_le (match ?x with _ => _ end) _ => destruct x
   end.
 
-Lemma depth_prog_of : forall reqauth o, depth_le (prog_of reqauth o) DEPTH.
+Lemma depth_client_op : forall reqauth o, o <> OpStop -> depth_le (prog_of reqauth o) 16.
 Proof.
-  intros reqauth o. unfold DEPTH.
-  destruct o; cbn [prog_of];
+  intros reqauth o Hns.
+  destruct o; [| | | | | | | | | | |congruence]; cbn [prog_of];
     unfold prog_auth, prog_attach, prog_walk, prog_open, prog_create, prog_read, prog_write, prog_statlike,
            prog_clunk, prog_remove, attach_rest, get_ref, new_ref, del_ref;
     repeat d_step.
+Qed.
+
+(* Stop: two actions per pass (the Snapshot, the Pick that ends it) and at most 8 per callback *)
+Lemma depth_stop_pass : forall n visited must again next D,
+  (forall n' a, (n' <= n)%nat -> depth_le (next n' a) (D + 8 * n')) ->
+  depth_le (stop_pass n visited must again next) (S (D + 8 * n)).
+Proof.
+  induction n as [|n IH]; intros visited must again next D H; cbn [stop_pass depth_le]; intros [[f q]|].
+  - cbn. exact I.
+  - apply H. lia.
+  - replace (D + 8 * S n)%nat with (S (S (S (S (S (S (S (S (D + 8 * n))))))))) by lia.
+    unfold stop_visit. cbn [depth_le]. intros _ s. destruct (s_ent s); cbn [depth_le].
+    + intros _. eapply depth_le_mono; [apply IH; intros; apply H; lia | lia].
+    + eapply depth_le_mono; [apply IH; intros; apply H; lia | lia].
+  - eapply depth_le_mono; [apply H; lia | lia].
+Qed.
+
+Lemma depth_stop_loop : forall passes n, depth_le (stop_loop passes n) (2 * passes + 8 * n).
+Proof.
+  induction passes as [|passes IH]; intro n; cbn [stop_loop]; [cbn; exact I|].
+  replace (2 * S passes + 8 * n)%nat with (S (S (2 * passes + 8 * n))) by lia. cbn [depth_le]. intro l.
+  apply depth_stop_pass. intros n' a Hle. destruct a; [apply IH | cbn; exact I].
+Qed.
+
+Definition DEPTH : nat := 2 * S STOP_FUEL + 8 * STOP_FUEL.
+
+Lemma depth_prog_of : forall reqauth o, depth_le (prog_of reqauth o) DEPTH.
+Proof.
+  intros reqauth o. destruct (match o with OpStop => true | _ => false end) eqn:E.
+  - destruct o; try discriminate. cbn [prog_of]. unfold prog_stop, DEPTH. apply depth_stop_loop.
+  - eapply depth_le_mono; [apply depth_client_op; intros ->; discriminate|].
+    unfold DEPTH, STOP_FUEL. lia.
 Qed.
 
 (* weight of a thread: twice the remaining depth, plus one while it is not inside a FileSys call
@@ -485,12 +552,16 @@ Lemma step_thread_weight : forall s j s' th w,
   exists th' w', threads s' = <[j := th']> (threads s) /\ wt_ok th' w' /\ (w' < w)%nat.
 Proof.
   intros s j s' th w Hj (n & Hd & ->) H. unfold step in H. rewrite Hj in H.
-  destruct (t_prog th) as [r|f k|f k|f k|f k|f q k|q k|q k|q k|q g k|c k] eqn:Hp.
+  destruct (t_prog th) as [r|f k|f k|f k|f k|f q k|k|vs ms k|q k|q k|q k|q g k|c k] eqn:Hp.
   - discriminate.
   - destruct n as [|m]; [destruct Hd|]. cbn [depth_le] in Hd. injection H as <-. cbn.
     eexists _, _. split; [reflexivity|]. split; [exists m; split; [apply Hd | reflexivity]|]. cbn. destruct (t_incall th); lia.
   - destruct n as [|m]; [destruct Hd|]. cbn [depth_le] in Hd. destruct (refs s !! f); injection H as <-; cbn;
       (eexists _, _; split; [reflexivity|]; split; [exists m; split; [apply Hd | reflexivity]|]; cbn; destruct (t_incall th); lia).
+  - destruct n as [|m]; [destruct Hd|]. cbn [depth_le] in Hd. injection H as <-. cbn.
+    eexists _, _. split; [reflexivity|]. split; [exists m; split; [apply Hd | reflexivity]|]. cbn. destruct (t_incall th); lia.
+  - destruct n as [|m]; [destruct Hd|]. cbn [depth_le] in Hd. injection H as <-. cbn.
+    eexists _, _. split; [reflexivity|]. split; [exists m; split; [apply Hd | reflexivity]|]. cbn. destruct (t_incall th); lia.
   - destruct n as [|m]; [destruct Hd|]. cbn [depth_le] in Hd. injection H as <-. cbn.
     eexists _, _. split; [reflexivity|]. split; [exists m; split; [apply Hd | reflexivity]|]. cbn. destruct (t_incall th); lia.
   - destruct n as [|m]; [destruct Hd|]. cbn [depth_le] in Hd. injection H as <-. cbn.
@@ -655,10 +726,10 @@ Proof.
   destruct (run_alone_done seq_fuel (alone reqauth s h) (2 * DEPTH + 1)
               (mk_thread reqauth (h_id h) (h_op h, h_script h))
               (inv_alone reqauth s h Ho) (total_alone reqauth s h)) as (th & Hth & Hd & I).
-  { unfold seq_fuel, DEPTH. lia. }
+  { unfold seq_fuel, DEPTH, STOP_FUEL. lia. }
   { reflexivity. }
   cbn [fst snd]. rewrite Hth. cbn. unfold is_done in Hd. unfold result_of.
-  destruct (t_prog th) as [r| | | | | | | | | |] eqn:Hp; try discriminate.
+  destruct (t_prog th) as [r| | | | | | | | | | | |] eqn:Hp; try discriminate.
   exists r, (rev (t_calls th)). split; [reflexivity|].
   apply map_eq. intro p. rewrite lookup_empty.
   apply (quiescent_unlocked _ p I). intros i th' Hi. rewrite Hth in Hi.
